@@ -9,6 +9,8 @@ wrapped for observation (attempt count), process hash seed (worker pools).
 """
 
 import collections
+import os
+import io
 import copy
 import random
 import re
@@ -187,6 +189,8 @@ def gen_extract(r, prop, client, risky_rate=0.04, force_small=False,
         op['examples'] = [s for s in examples if s is not None]
         op['skip_header'] = r.chance(0.6)
         op['header'] = r.pick(['code', 'value', 'Name', 'id'])
+        if r.chance(0.4):
+            op['out_file'] = r.pick(['out.txt', 'rex.txt'])
         if not op['examples']:
             op['form'] = 'list'
             op['examples'] = examples
@@ -284,6 +288,20 @@ def gen_plan(prop, r, tier, run):
                     src.setdefault('size_shared', 'S%d' % len(prev))
                     op['size'] = dict(src['size'])
                     op['size_shared'] = src['size_shared']
+            if op['form'] == 'streams' and prop in ('C03', 'C13') \
+                    and r.chance(0.35):
+                # an earlier call on the same list of lines went wrong
+                # part-way (misspelt dialect, unknown keyword): the caller
+                # corrects the call and tries again with the same list
+                bad = copy.deepcopy(op)
+                bad['opts'] = dict(bad['opts'])
+                if r.chance(0.6):
+                    bad['opts']['dialect'] = 'pearl'
+                else:
+                    bad['opts']['no_such_option'] = 1
+                bad['expect_raise'] = True
+                bad['stream_key'] = op['stream_key'] = 'R%d' % len(ops)
+                ops.append(bad)
             if prop == 'C13':
                 op['tagpair'] = True
                 op['opts'].pop('tag', None)
@@ -372,6 +390,29 @@ def gen_c14(r, clients):
                 po['size'] = dict(tgt['size'])
                 po['size_shared'] = 'S0'
             ops.append(po)
+    if r.chance(0.3):
+        # a seeded call that fails part-way (misspelt dialect): the global
+        # generator must come out of it as it went in
+        bad = variant('failing-call')
+        if r.chance(0.4):
+            bad['opts'] = dict(bad['opts'], dialect='pearl')
+        else:
+            # a value that is not a string turns up among the examples
+            bad['examples'] = list(bad['examples']) + [
+                {'__bad__': r.pick(['bytes', 'tuple'])}]
+            if r.chance(0.3):
+                bad['form'] = 'series'
+                bad['examples'] = [x.replace('\x00', '\x01')
+                                   if isinstance(x, str) else x
+                                   for x in bad['examples']]
+                bad['opts'] = {}
+                bad['size'] = None
+                bad['series_dtype'] = 'object'
+                bad['split'] = 1
+        bad['expect_raise'] = True
+        bad['seed'] = r.pick([0, 1, 7, 2 ** 32 - 1, r.randint(2, 10 ** 6)])
+        bad.pop('group', None)
+        ops.append(bad)
     ops.append(variant('after_prefix'))
     if r.chance(0.7):
         ops.append(variant('again'))
@@ -586,6 +627,11 @@ def execute(plan):
     random.seed(plan['config']['random0'])
     ctx.simr = simr
     ctx.attempts = attempts
+    world = None
+    if any(op.get('out_file') for op in plan['ops']):
+        from sim.world import World
+        world = World(chdir=False)
+        ctx.W = world.__enter__()
     try:
         clients_seen = []
         for op in plan['ops']:
@@ -614,6 +660,8 @@ def execute(plan):
         if prop == 'C14':
             check_c14_groups(ctx, plan)
     finally:
+        if world is not None:
+            world.__exit__(None, None, None)
         rexpy.random = saved_random
         rexpy.Extractor.batch_extract = saved_batch
         rexpy.memo.clear()
@@ -633,7 +681,17 @@ def violation(ctx, op, clause, tag, detail):
                            'detail': detail, 'at_op': op['i']})
 
 
+BAD_VALUES = {'bytes': b'\xff\xfe raw bytes', 'tuple': ('x', 1)}
+
+
+def unmark(ex):
+    return [BAD_VALUES[x['__bad__']] if isinstance(x, dict) else x
+            for x in ex]
+
+
 def build_examples(op):
+    if any(isinstance(x, dict) for x in op['examples']):
+        op = dict(op, examples=unmark(op['examples']))
     if op['form'] == 'dict':
         return collections.OrderedDict(zip(op['examples'], op['freqs']))
     if op['form'] == 'series':
@@ -696,6 +754,24 @@ def call_extract(ctx, op, tag=None, as_object=False):
     try:
         if op['form'] == 'series':
             val = rexpy.pdextract(ex, seed=op.get('seed'))
+        elif op['form'] == 'streams' and op.get('out_file') and not any(
+                c in x for x in ex if isinstance(x, str)
+                for c in '\n\r\x0b\x0c\x1c\x1d\x1e\x85\u2028\u2029'):
+            # (one expression per line: only for examples that could have
+            # come from lines of a file themselves)
+            # results written to a file (what `rexpy IN OUT` does); the
+            # file may hold the output of an earlier run
+            outp = ctx.W.path('data', op['out_file'])
+            if os.path.exists(outp):
+                ctx.stats['probes']['output_file_of_earlier_run_present'] += 1
+            rexpy.rexpy_streams(ex, outp,
+                                skip_header=bool(op.get('skip_header')),
+                                size=size, seed=op.get('seed'), **opts)
+            with io.open(outp, encoding='utf-8', newline='\n') as f:
+                t = f.read()
+            val = t.split('\n')[:-1] if t.endswith('\n') else t.split('\n')
+            if t == '':
+                val = []
         elif op['form'] == 'streams':
             val = rexpy.rexpy_streams(ex, False,
                                       skip_header=bool(op.get('skip_header')),
@@ -773,6 +849,8 @@ def note_faults(ctx, op, obs):
 
 def run_extract_op(ctx, op):
     prop = ctx.prop
+    if op.get('expect_raise'):
+        return run_failing_call(ctx, op)
     kept = kept_examples(op) if op['form'] != 'series' else None
     if op['form'] == 'series':
         kept = collections.OrderedDict()
@@ -784,7 +862,30 @@ def run_extract_op(ctx, op):
         return run_tagpair(ctx, op, kept)
     if op.get('cov'):
         return run_cov(ctx, op, kept)
+    return run_plain(ctx, op, kept)
 
+
+def run_failing_call(ctx, op):
+    if True:
+        outcome, val, obs = call_extract(ctx, op)
+        ctx.stats['faults']['earlier_call_failed_part_way'] += 1
+        ctx.nontrivial = True
+        ctx.events.append({'i': op['i'], 'op': 'failed-call',
+                           'outcome': outcome,
+                           'exc': exc_tag(val) if outcome == 'exc' else None})
+        ctx.shape.append('%sX' % op['client'])
+        if ctx.prop == 'C14' and op.get('seed') is not None:
+            ctx.stats['checks']['prng_state_conserved_checks'] += 1
+            if not obs['state_same']:
+                violation(ctx, op, 'prng-state', 'call-raised',
+                          'global random state differs after a seeded call '
+                          'that raised %s' % (exc_tag(val)
+                                              if outcome == 'exc' else '-'))
+        return
+
+
+def run_plain(ctx, op, kept):
+    prop = ctx.prop
     outcome, val, obs = call_extract(ctx, op)
     note_faults(ctx, op, obs)
     reg = regime(op, obs)
